@@ -39,7 +39,7 @@ from typing import Optional
 import numpy as np
 import sympy as sp
 
-from ..core.astutil import u, dotted, walk_local, call_name, kwarg, arg_or_kw, methods, body_nodoc, names_in, stmts_local
+from ..core.astutil import u, dotted, walk_local, call_name, kwarg, arg_or_kw, methods, body_nodoc, names_in, stmts_local, inline_locals
 from ..core.loader import AnchorError, Undecided
 from ..core.report import Ctx
 
@@ -67,7 +67,7 @@ META = {
     "technique": "abstract interpretation of straight-line array code to linear forms over symbolic table values (sympy as term normaliser); "
                  "layout/stride agreement; lock-step and index-space typing",
 }
-MIN_INSTANCES = {"R1": 28, "R2": 24, "R3": 8, "R4": 20, "R5": 1}
+MIN_INSTANCES = {"R1": 12, "R2": 16, "R3": 10, "R4": 22, "R5": 1}
 
 
 # ------------------------------------------------------------------------------------------------------
@@ -124,8 +124,27 @@ def _arr(seq):
     return out
 
 
+_PRIMES = [3, 5, 7, 11, 13, 17, 19, 23, 29, 31, 37, 41, 43, 47, 53, 59, 61, 67, 71, 73, 79, 83, 89, 97]
+
+
 def _z(e) -> bool:
-    return sp.simplify(sp.together(sp.expand(e))) == 0
+    """identically zero?  expand() to 0 proves it; a non-zero value at an exact rational point refutes it; otherwise undecided"""
+    e = sp.expand(sp.sympify(e))
+    if e == 0:
+        return True
+    syms = sorted(e.free_symbols, key=str)
+    for trial in range(3):
+        vals = {}
+        for i, s_ in enumerate(syms):
+            p_ = _PRIMES[(i + 5 * trial) % len(_PRIMES)]
+            vals[s_] = sp.Integer(p_) if s_.is_integer else sp.Rational(p_, 2 + trial)
+        v = e.subs(vals)
+        if v.is_number and v.is_finite and v != 0:
+            return False
+    e2 = sp.cancel(sp.together(e))
+    if e2 == 0:
+        return True
+    raise Undecided(f"C41: cannot decide whether {str(e)[:120]} vanishes identically")
 
 
 class World:
@@ -774,8 +793,9 @@ def _world(mod, cname: str, d: int, roles: dict) -> World:
         if len(params) < 4:
             raise AnchorError(f"{IT}:{BASE}.__init__: signature changed")
         lo = _arr([sp.Symbol(f"low{j}", real=True) for j in range(d)])
-        hi = _arr([sp.Symbol(f"high{j}", real=True) for j in range(d)])
         n = _arr([sp.Symbol(f"n{j}", integer=True, positive=True) for j in range(d)])
+        # w.l.o.g. high = low + (n - 1) * H with H the (arbitrary, non-zero) node spacing: keeps all terms Laurent polynomials
+        hi = _arr([lo[j] + (n[j] - 1) * sp.Symbol(f"H{j}", positive=True) for j in range(d)])
         env.update({params[0]: lo, params[1]: hi, params[2]: n, params[3]: Unknown("function")})
         for p in params[4:]:
             env[p] = sp.Integer(1)
@@ -861,37 +881,53 @@ def _query(w: World, mname: str, extra: dict) -> sp.Expr:
 # R1 / R2
 # ------------------------------------------------------------------------------------------------------
 
+def _local(w: World) -> dict:
+    """x_j = node_j(k_j) + t_j * step_j: a bijective re-parametrisation of the query point inside its cell (step != 0) that keeps all terms polynomial"""
+    node = w.coordmap(w.k).ravel()
+    one = _arr([sp.Integer(1)] * w.d).reshape(-1, 1)
+    nxt = w.coordmap(w.k + one).ravel()
+    return {w.x.ravel()[j]: node[j] + sp.Symbol(f"t{j}", real=True) * sp.expand(nxt[j] - node[j]) for j in range(w.d)}
+
+
+def _show(e) -> str:
+    try:
+        return str(sp.factor(sp.expand(e)))[:200]
+    except Exception:  # pragma: no cover
+        return str(e)[:200]
+
+
 def _check_reproduction(ctx: Ctx, mod, worlds: dict) -> None:
     fn_i = mod.func(f"{BASE}.interpolate")
     fn_g = mod.func(f"{BASE}.gradient")
     for (cname, d), w in worlds.items():
+        loc = _local(w)
         I = _query(w, "interpolate", {})
         xs = list(w.x.ravel())
         nF = len(I.atoms(sp.core.function.AppliedUndef))
         if d == 2:
-            ctx.sample({"rule": "R1", "class": cname, "d": d, "vertices": nF, "interpolant": str(sp.factor(I))[:300]})
+            ctx.sample({"rule": "R1", "class": cname, "d": d, "vertices": nF, "interpolant": str(I)[:300]})
         for r in range(d + 1):
             for S in itertools.combinations(range(d), r):
                 got = _subs_F(I, w, S)
                 want = sp.Integer(1)
                 for j in S:
                     want *= xs[j]
-                ok = _z(got - want)
+                ok = _z((got - want).subs(loc))
                 mono = "*".join(f"x{j}" for j in S) or "1"
                 ctx.check("R1", ok, mod, f"{cname}.interpolate", fn_i,
-                          f"[{cname}, d={d}] the interpolant of the multilinear function {mono} is {sp.simplify(got)}, not {want}: "
-                          f"the vertex weights (product over the axes of right*incr + left*(1-incr), left = 1 - right, right = (x - node)/h) do not reproduce it",
-                          construct=f"{cname}.interpolate reproduces {mono} [d={d}]", facts={"got": str(sp.simplify(got))[:200]})
+                          f"[{cname}, d={d}] the interpolant of the multilinear function {mono} is not {mono}" + ("" if ok else f" but {_show(got)}") +
+                          ": the vertex weights (product over the axes of right*incr + left*(1-incr), left = 1 - right, right = (x - node)/h) do not reproduce it",
+                          construct=f"{cname}.interpolate reproduces {mono} [d={d}]", desc=f"[{cname}, d={d}] interpolate reproduces the multilinear function {mono}")
         for ax in range(d):
             G = _query(w, "gradient", {"axis": sp.Integer(ax)})
             tests = [((), sp.Integer(0), "1")] + [((j,), sp.Integer(1 if j == ax else 0), f"x{j}") for j in range(d)]
             for S, want, nm in tests:
                 got = _subs_F(G, w, S)
-                ok = _z(got - want)
+                ok = _z((got - want).subs(loc))
                 ctx.check("R2", ok, mod, f"{cname}.gradient", fn_g,
-                          f"[{cname}, d={d}] d/dx{ax} of the linear function {nm} is computed as {sp.simplify(got)}, not {want}: the differentiated axis must "
-                          f"contribute (2*incr - 1) and the sum must be divided by h of the same axis",
-                          construct=f"{cname}.gradient axis {ax} of {nm} [d={d}]", facts={"got": str(sp.simplify(got))[:200]})
+                          f"[{cname}, d={d}] d/dx{ax} of the linear function {nm} is not {want}" + ("" if ok else f" but {_show(got)}") +
+                          ": the differentiated axis must contribute (2*incr - 1), the other axes their interpolation weights, and the sum must be divided by h of the same axis",
+                          construct=f"{cname}.gradient axis {ax} of {nm} [d={d}]", desc=f"[{cname}, d={d}] d/dx{ax} of the linear function {nm} equals {want}")
 
 
 # ------------------------------------------------------------------------------------------------------
@@ -977,31 +1013,49 @@ def _check_dense_layout(ctx: Ctx, mod, worlds: dict) -> None:
     if init is None:
         raise AnchorError(f"{IT}:{BASE}.__init__ not found")
     fparam = [a.arg for a in init.args.args][4] if len(init.args.args) > 4 else None
-    loops = [l for l in walk_local(init) if isinstance(l, ast.For) and f"self.{coord_attr}" in u(l.iter)]
     w1 = worlds[(BASE, 1)]
-    if len(loops) != 1:
+    loops = [l for l in walk_local(init) if isinstance(l, ast.For) and f"self.{coord_attr}" in u(l.iter)]
+    comps = [c for c in walk_local(init) if isinstance(c, ast.ListComp) and len(c.generators) == 1 and f"self.{coord_attr}" in u(c.generators[0].iter)]
+    if len(loops) == 1 and not comps:
+        lp = loops[0]
+        it = lp.iter
+        if not (isinstance(it, ast.Call) and call_name(it) == "enumerate" and len(it.args) == 1 and isinstance(it.args[0], ast.Call) and call_name(it.args[0]) == "zip"
+                and u(it.args[0].args[0]) == f"*self.{coord_attr}" and isinstance(lp.target, ast.Tuple) and len(lp.target.elts) == 2
+                and all(isinstance(x, ast.Name) for x in lp.target.elts)):
+            raise Undecided(f"{IT}:{BASE}.__init__: fill loop is not `for i, c in enumerate(zip(*self.{coord_attr}))`")
+        iname, cname_ = (x.id for x in lp.target.elts)
+        stores = [s for s in lp.body if isinstance(s, ast.Assign) and isinstance(s.targets[0], ast.Subscript) and isinstance(s.targets[0].value, ast.Attribute)
+                  and u(s.targets[0].value.value) == "self"]
+        if len(stores) != 1:
+            raise Undecided(f"{IT}:{BASE}.__init__: fill loop body not recognised")
+        st = stores[0]
+        sl = st.targets[0].slice
+        col = sl.elts[-1] if isinstance(sl, ast.Tuple) else sl
+        ctx.check("R3", u(col) == iname, mod, f"{BASE}.__init__", st, f"the value of point number {iname} must be stored in column {iname}; it is stored in column `{u(col)}`",
+                  construct="fill: column index")
+        v = st.value
+        filled_attr = st.targets[0].value.attr
+    elif len(comps) == 1 and not loops:
+        # [function(*c) for c in zip(*self._coord)]: the list keeps the order of the points
+        cp = comps[0]
+        g = cp.generators[0]
+        if not (isinstance(g.iter, ast.Call) and call_name(g.iter) == "zip" and len(g.iter.args) == 1 and u(g.iter.args[0]) == f"*self.{coord_attr}"
+                and isinstance(g.target, ast.Name) and not g.ifs):
+            raise Undecided(f"{IT}:{BASE}.__init__: fill comprehension is not over zip(*self.{coord_attr})")
+        cname_, iname = g.target.id, "i"
+        st = next((s for s in walk_local(init) if isinstance(s, (ast.Assign, ast.AnnAssign)) and s.value is not None and any(n is cp for n in ast.walk(s.value))), None)
+        t = (st.targets[0] if isinstance(st, ast.Assign) else st.target) if st is not None else None
+        if not (isinstance(t, ast.Attribute) and u(t.value) == "self"):
+            raise Undecided(f"{IT}:{BASE}.__init__: the list of function values is not stored in an attribute")
+        ctx.check("R3", True, mod, f"{BASE}.__init__", st, "values are collected in the order of the points", construct="fill: column index")
+        v = cp.elt
+        filled_attr = t.attr
+    else:
         raise Undecided(f"{IT}:{BASE}.__init__: the loop that fills the value table from self.{coord_attr} was not recognised")
-    lp = loops[0]
-    it = lp.iter
-    if not (isinstance(it, ast.Call) and call_name(it) == "enumerate" and len(it.args) == 1 and isinstance(it.args[0], ast.Call) and call_name(it.args[0]) == "zip"
-            and u(it.args[0].args[0]) == f"*self.{coord_attr}" and isinstance(lp.target, ast.Tuple) and len(lp.target.elts) == 2
-            and all(isinstance(x, ast.Name) for x in lp.target.elts)):
-        raise Undecided(f"{IT}:{BASE}.__init__: fill loop is not `for i, c in enumerate(zip(*self.{coord_attr}))`")
-    iname, cname_ = (x.id for x in lp.target.elts)
-    stores = [s for s in lp.body if isinstance(s, ast.Assign) and isinstance(s.targets[0], ast.Subscript) and isinstance(s.targets[0].value, ast.Attribute)
-              and u(s.targets[0].value.value) == "self"]
-    if len(stores) != 1:
-        raise Undecided(f"{IT}:{BASE}.__init__: fill loop body not recognised")
-    st = stores[0]
-    sl = st.targets[0].slice
-    col = sl.elts[-1] if isinstance(sl, ast.Tuple) else sl
-    ctx.check("R3", u(col) == iname, mod, f"{BASE}.__init__", st, f"the value of point number {iname} must be stored in column {iname}; it is stored in column `{u(col)}`",
-              construct="fill: column index")
-    v = st.value
     ok = isinstance(v, ast.Call) and fparam is not None and u(v.func) == fparam and len(v.args) == 1 and u(v.args[0]) == f"*{cname_}"
     ctx.check("R3", ok, mod, f"{BASE}.__init__", st, f"column {iname} must hold function(*coordinates of point {iname}); found `{u(v)[:60]}`", construct="fill: function of the same point")
-    ctx.check("R3", st.targets[0].value.attr == w1.value_attr, mod, f"{BASE}.__init__", st,
-              f"the table is filled into self.{st.targets[0].value.attr} but read (property _values) from self.{w1.value_attr}", construct="fill: attribute read by _values")
+    ctx.check("R3", filled_attr == w1.value_attr, mod, f"{BASE}.__init__", st,
+              f"the table is filled into self.{filled_attr} but read (property _values) from self.{w1.value_attr}", construct="fill: attribute read by _values")
     # ---- reader: linear index = sum (base + incr) * stride ----
     w2 = worlds[(BASE, 2)]
     fnx, _ = w2.method("_index_from_base_and_increment")
@@ -1044,13 +1098,30 @@ def _check_inverse_pair(ctx: Ctx, mod, worlds: dict) -> None:
             arg = t.args[0].subs({w.x.ravel()[j]: node.ravel()[j]}, simultaneous=True)
             ok = _z(arg - w.k.ravel()[j])
             ctx.check("R4", ok, mod, f"{owner}._find_base_vertex", fn,
-                      f"[{cname}, d={d}] the cell search maps the coordinate of node k on axis {j} ({node.ravel()[j]}) to index {sp.simplify(arg)}, not k: "
+                      f"[{cname}, d={d}] the cell search maps the coordinate of node k on axis {j} ({node.ravel()[j]}) to index {arg if ok else _show(arg)}, not k: "
                       f"search and node coordinates use different origins or mesh sizes", construct=f"{cname}: index(node_k) == k on axis {j} [d={d}]",
                       facts={"search": str(t), "node": str(node.ravel()[j])})
 
 
+def _order_names(v: ast.expr) -> set[str]:
+    """names whose column order the value inherits; a call of another method of the object (other than the cell search, which works column by
+    column) yields columns in an order of its own"""
+    out: set[str] = set()
+
+    def visit(n):
+        if isinstance(n, ast.Call) and isinstance(n.func, ast.Attribute) and isinstance(n.func.value, ast.Name) and n.func.value.id == "self" \
+                and n.func.attr != "_find_base_vertex":
+            return
+        if isinstance(n, ast.Name):
+            out.add(n.id)
+        for c in ast.iter_child_nodes(n):
+            visit(c)
+    visit(v)
+    return out
+
+
 def _deps(fn: ast.FunctionDef, name: str) -> set[str]:
-    """names a local transitively depends on (all assignments, all arms)"""
+    """names a local transitively inherits its column order from (all assignments, all arms)"""
     seen, todo = set(), [name]
     while todo:
         nm = todo.pop()
@@ -1061,7 +1132,7 @@ def _deps(fn: ast.FunctionDef, name: str) -> set[str]:
             if isinstance(s, (ast.Assign, ast.AnnAssign)) and s.value is not None:
                 ts = s.targets if isinstance(s, ast.Assign) else [s.target]
                 if any(isinstance(n, ast.Name) and n.id == nm for t in ts for n in ast.walk(t)):
-                    todo += list(names_in(s.value))
+                    todo += list(_order_names(s.value))
     return seen
 
 
@@ -1076,6 +1147,8 @@ def _check_adaptive(ctx: Ctx, mod, worlds: dict, roles: dict) -> None:
         raise AnchorError(f"{IT}:{ADPT}._index_from_base_and_increment: signature changed")
     owner_seen = set()
     for d in (2, 3):
+        if (ADPT, d) not in worlds:
+            continue
         w = worlds[(ADPT, d)]
         for inc in itertools.product(range(2), repeat=d):
             incr = _arr([sp.Integer(b) for b in inc]).reshape(-1, 1)
@@ -1125,39 +1198,58 @@ def _check_adaptive(ctx: Ctx, mod, worlds: dict, roles: dict) -> None:
         raise Undecided(f"{IT}:{ADPT}._fill_values: expected one evaluation of self._function and one self.{T}.add")
     pm = {c: p for p in ast.walk(fv) for c in ast.iter_child_nodes(p)}
 
-    def comp_of(node):
-        while node in pm and not isinstance(node, (ast.ListComp, ast.GeneratorExp)):
+    def selection_of(node):
+        """(iterable text, loop variable) of the comprehension / for loop that encloses node"""
+        while node in pm:
             node = pm[node]
-        return node if isinstance(node, (ast.ListComp, ast.GeneratorExp)) else None
-    fcomp = comp_of(fcalls[0])
-    acomp = adds[0].args[0] if adds[0].args and isinstance(adds[0].args[0], (ast.ListComp, ast.GeneratorExp)) else None
-    if fcomp is None or acomp is None or len(fcomp.generators) != 1 or len(acomp.generators) != 1:
-        raise Undecided(f"{IT}:{ADPT}._fill_values: function evaluation / table insertion are not comprehensions over a selection")
+            if isinstance(node, (ast.ListComp, ast.GeneratorExp)) and len(node.generators) == 1 and not node.generators[0].ifs:
+                return u(node.generators[0].iter), u(node.generators[0].target)
+            if isinstance(node, ast.For):
+                return u(node.iter), u(node.target)
+            if isinstance(node, (ast.If, ast.While, ast.FunctionDef)):
+                return None
+        return None
+    fsel = selection_of(fcalls[0])
     farg = fcalls[0].args[0].value if len(fcalls[0].args) == 1 and isinstance(fcalls[0].args[0], ast.Starred) else None
-    iarg = acomp.elt
-    fvar, ivar = u(fcomp.generators[0].target), u(acomp.generators[0].target)
+    key = adds[0].args[0] if adds[0].args else kwarg(adds[0], "coords")
+    if isinstance(key, (ast.ListComp, ast.GeneratorExp)) and len(key.generators) == 1 and not key.generators[0].ifs:
+        iarg, isel = key.elt, (u(key.generators[0].iter), u(key.generators[0].target))
+    elif isinstance(key, ast.Name):
+        apps_ = [c for c in ast.walk(fv) if isinstance(c, ast.Call) and isinstance(c.func, ast.Attribute) and c.func.attr == "append" and u(c.func.value) == key.id and len(c.args) == 1]
+        if len(apps_) != 1:
+            raise Undecided(f"{IT}:{ADPT}._fill_values: keys `{key.id}` handed to the table are not built by one append in a loop")
+        iarg, isel = apps_[0].args[0], selection_of(apps_[0])
+    else:
+        iarg, isel = None, None
+    if fsel is None or isel is None or farg is None or iarg is None:
+        raise Undecided(f"{IT}:{ADPT}._fill_values: function evaluation / table insertion are not a comprehension or loop over a selection")
 
     def col_of(e, var):
         if isinstance(e, ast.Subscript) and isinstance(e.value, ast.Name) and isinstance(e.slice, ast.Tuple) and len(e.slice.elts) == 2 \
                 and u(e.slice.elts[0]) == ":" and u(e.slice.elts[1]) == var:
             return e.value.id
         return None
-    fa, ia = (col_of(farg, fvar) if farg is not None else None), col_of(iarg, ivar)
+    fa, ia = col_of(farg, fsel[1]), col_of(iarg, isel[1])
     if fa is None or ia is None:
-        raise Undecided(f"{IT}:{ADPT}._fill_values: column selections `{u(farg) if farg is not None else '?'}` / `{u(iarg)}` not recognised")
+        raise Undecided(f"{IT}:{ADPT}._fill_values: column selections `{u(farg)}` / `{u(iarg)}` not recognised")
     ctx.check("R4", fa == fc, mod, f"{ADPT}._fill_values", fcalls[0], f"the function must be evaluated at the COORDINATES of the new quadrature points (`{fc}`), it is evaluated at `{fa}`",
               construct="function evaluated at coordinates")
     ctx.check("R4", ia == fi, mod, f"{ADPT}._fill_values", adds[0], f"the sparse table must be keyed by the integer INDICES of the new quadrature points (`{fi}`), it is keyed by `{ia}`",
               construct="table keyed by indices")
-    ctx.check("R4", u(fcomp.generators[0].iter) == u(acomp.generators[0].iter) and not fcomp.generators[0].ifs and not acomp.generators[0].ifs,
-              mod, f"{ADPT}._fill_values", adds[0],
-              f"values are computed for the selection `{u(fcomp.generators[0].iter)}` but stored under the indices of the selection `{u(acomp.generators[0].iter)}`",
+    ctx.check("R4", fsel[0] == isel[0], mod, f"{ADPT}._fill_values", adds[0],
+              f"values are computed for the selection `{fsel[0]}` but stored under the indices of the selection `{isel[0]}`",
               construct="values and keys selected in lock-step")
     # the values handed to add are the computed ones
     vals = adds[0].args[1] if len(adds[0].args) > 1 else kwarg(adds[0], "values")
     vname = vals.id if isinstance(vals, ast.Name) else None
     vdef = [s for s in walk_local(fv) if isinstance(s, ast.Assign) and isinstance(s.targets[0], ast.Name) and s.targets[0].id == vname]
     ok = len(vdef) == 1 and any(n is fcalls[0] for n in ast.walk(vdef[0].value))
+    if len(vdef) == 1 and not ok:
+        # values collected by append in the selection loop, then converted: new_values = np.array(vals).T
+        for nm_ in names_in(vdef[0].value):
+            if any(isinstance(c, ast.Call) and isinstance(c.func, ast.Attribute) and c.func.attr == "append" and u(c.func.value) == nm_
+                   and any(n is fcalls[0] for n in ast.walk(c)) for c in ast.walk(fv)):
+                ok = True
     ctx.check("R4", ok, mod, f"{ADPT}._fill_values", adds[0], "the values stored in the table are the ones just computed by the function", construct="stored values are the computed ones")
     # (e) overriding query methods fill, then delegate unchanged
     for nm in ("interpolate", "gradient"):
@@ -1167,19 +1259,26 @@ def _check_adaptive(ctx: Ctx, mod, worlds: dict, roles: dict) -> None:
         params = [a.arg for a in fn.args.args][1:]
         rets = [x for x in walk_local(fn) if isinstance(x, ast.Return) and x.value is not None]
         sup = [x for x in rets if isinstance(x.value, ast.Call) and isinstance(x.value.func, ast.Attribute) and u(x.value.func.value) in ("super()", f"super({ADPT}, self)")]
-        if len(rets) != 1 or len(sup) != 1:
-            raise Undecided(f"{IT}:{ADPT}.{nm}: does not return a single super() call")
-        c = sup[0].value
-        base_fn = methods(mod.cls(BASE)).get(c.func.attr)
+        if not rets or len(sup) != len(rets):
+            raise Undecided(f"{IT}:{ADPT}.{nm}: not every return is a super() call")
+        base_fn = methods(mod.cls(BASE)).get(nm)
         bparams = [a.arg for a in base_fn.args.args][1:] if base_fn is not None else []
-        bound = {bparams[i]: u(a) for i, a in enumerate(c.args) if i < len(bparams)}
-        bound.update({k.arg: u(k.value) for k in c.keywords})
-        ok = c.func.attr == nm and bparams == params and all(bound.get(p) == p for p in params)
-        ctx.check("R4", ok, mod, f"{ADPT}.{nm}", sup[0], f"{nm} must delegate to {BASE}.{nm} with its own arguments {params}; found `{u(c)}`", construct=f"{nm}: delegation")
+        pmf = {c: p for p in ast.walk(fn) for c in ast.iter_child_nodes(p)}
         fills = [x for x in walk_local(fn) if isinstance(x, ast.Call) and u(x.func) == "self._fill_values"]
-        ok = bool(fills) and all(x.lineno < sup[0].lineno for x in fills) and all(len(x.args) == 1 and u(x.args[0]) == params[0] for x in fills)
-        ctx.check("R4", ok, mod, f"{ADPT}.{nm}", fn, f"{nm} must compute missing table values for the query points ({params[0]}) before delegating: without it a query in a "
-                  f"cell not visited before reads vertices that are not in the table", construct=f"{nm}: fill before delegation")
+        for r_ in sup:
+            c = r_.value
+            bound = {bparams[i]: u(a) for i, a in enumerate(c.args) if i < len(bparams)}
+            bound.update({k.arg: u(k.value) for k in c.keywords})
+            ok = c.func.attr == nm and bparams == params and all(bound.get(p) == p for p in params)
+            ctx.check("R4", ok, mod, f"{ADPT}.{nm}", r_, f"{nm} must delegate to {BASE}.{nm} with its own arguments {params}; found `{u(c)}`", construct=f"{nm}: delegation")
+            # a return in the arm `if self._function is None:` has nothing to fill
+            par = pmf.get(r_)
+            no_function_arm = isinstance(par, ast.If) and r_ in par.body and u(par.test).replace(" ", "") in ("self._functionisNone",)
+            if no_function_arm:
+                continue
+            ok = bool(fills) and all(x.lineno < r_.lineno for x in fills) and all(len(x.args) == 1 and u(x.args[0]) == params[0] for x in fills)
+            ctx.check("R4", ok, mod, f"{ADPT}.{nm}", fn, f"{nm} must compute missing table values for the query points ({params[0]}) before delegating: without it a query in a "
+                      f"cell not visited before reads vertices that are not in the table", construct=f"{nm}: fill before delegation")
     # (f) writers of the stored coordinates
     for mname, fn in ms.items():
         if mname == "__init__":
@@ -1202,7 +1301,7 @@ def _check_adaptive(ctx: Ctx, mod, worlds: dict, roles: dict) -> None:
         for s in walk_local(fn):
             if isinstance(s, ast.Assign) and s.value is addc[0] and isinstance(s.targets[0], ast.Name):
                 perm = s.targets[0].id
-        v = apps[0].value
+        v = inline_locals(fn, apps[0].value, stop=params | ({perm} if perm else set()))
         appended = [n for n in ast.walk(v) if isinstance(n, ast.Subscript) and perm is not None and perm in names_in(n.slice)]
         ctx.check("R4", bool(appended), mod, f"{ADPT}.{mname}", apps[0],
                   f"the keys come from the caller in arbitrary order and self.{T}.add sorts and de-duplicates them; the coordinates appended to self.{PT} must be permuted "
@@ -1249,7 +1348,7 @@ def _check_spaces(ctx: Ctx, mod) -> None:
                 ctx.check("R5", ok, mod, f"{ADPT}.__init__", s,
                           f"the default base point has `{size}` entries = dimension of the function VALUE; it is zipped with the rows of the query points and with dx "
                           f"(one entry per PARAMETER axis) in _find_base_vertex, so with dx.size != {dimp} the cell search silently drops axes",
-                          construct="default base point sized by the value dimension")
+                          construct=f"default base point sized by the value dimension ({size})")
     if not found:
         raise Undecided(f"{IT}:{ADPT}.__init__: default of the base point not recognised")
 
@@ -1261,7 +1360,7 @@ def run(ctx: Ctx) -> None:
     for c in (BASE, ADPT):
         mod.cls(c)
     roles = _roles(mod)
-    dims = (1, 2, 3)
+    dims = (1, 2, 3) if ctx.tier == "thorough" else (1, 2)     # the mutant battery always runs with d = 1, 2
     worlds = {(c, d): _world(mod, c, d, roles) for c in (BASE, ADPT) for d in dims}
     _check_reproduction(ctx, mod, worlds)
     _check_dense_layout(ctx, mod, worlds)
@@ -1275,4 +1374,47 @@ def run(ctx: Ctx) -> None:
              "table; the two agree as long as stored coordinates equal base_point + dx*index within 1e-10 (documented precondition of assign_values)")
 
 
-MUTANTS: list = []
+def _m(name, old, new, rule, control=False, count=1, accept_undecided=False):
+    return dict(name=name, file=IT, old=old, new=new, rule=rule, control=control, count=count, accept_undecided=accept_undecided)
+
+
+MUTANTS = [
+    # R1 weights / vertices
+    _m("weights-left-right-swapped", "                right_weight * incr + left_weight * (1 - incr), axis=0\n",
+       "                left_weight * incr + right_weight * (1 - incr), axis=0\n", "R1"),
+    _m("adaptive-weight-divided-by-h-of-axis-0", "(x[i] - (self._pt[i, raveled_ind])) / self._h[i]", "(x[i] - (self._pt[i, raveled_ind])) / self._h[0]", "R1"),
+    _m("dense-weight-divided-by-h-of-axis-0", "(x[i] - (self._pt_on_axes[i][base_ind[i]])) / self._h[i]", "(x[i] - (self._pt_on_axes[i][base_ind[i]])) / self._h[0]", "R1"),
+    _m("mesh-size-inconsistent-with-linspace", "        self._h = (high - low) / (npt - 1)\n", "        self._h = (high - low) / npt\n", "R1"),
+    _m("adaptive-left-weight", "        left_weight = 1 - right_weight\n\n        return right_weight, left_weight\n\n    def _find_base_vertex(self, coord: np.ndarray, safeguarding=False)",
+       "        left_weight = 1 + right_weight\n\n        return right_weight, left_weight\n\n    def _find_base_vertex(self, coord: np.ndarray, safeguarding=False)", "R1"),
+    _m("weight-sum-instead-of-product", "            weight = np.prod(\n                right_weight * incr", "            weight = np.sum(\n                right_weight * incr", "R1"),
+    _m("adaptive-lookup-ignores-increment", "                base_ind + incr, self._table._coords\n", "                base_ind, self._table._coords\n", "R1"),
+    _m("dense-vertex-minus-increment", "        vertex_ind = base_ind + incr\n", "        vertex_ind = base_ind - incr\n", "R1"),
+    # R2 gradient
+    _m("gradient-sign", "            weight_ind[axis] = 2 * incr[axis] - 1\n", "            weight_ind[axis] = 1 - 2 * incr[axis]\n", "R2", control=True),
+    _m("gradient-divided-by-h-of-axis-0", "        return values / self._h[axis]\n", "        return values / self._h[0]\n", "R2"),
+    _m("gradient-not-divided", "        return values / self._h[axis]\n", "        return values\n", "R2"),
+    _m("gradient-patches-axis-0", "            weight_ind[axis] = 2 * incr[axis] - 1\n", "            weight_ind[0] = 2 * incr[axis] - 1\n", "R2"),
+    _m("gradient-keeps-interpolation-weight", "            weight_ind[axis] = 2 * incr[axis] - 1\n", "            weight_ind[axis] = weight_ind[axis] * (2 * incr[axis] - 1)\n", "R2"),
+    # R3 dense layout
+    _m("ravel-default-order", 'self._coord: list[np.ndarray] = [c.ravel("F") for c in coord_table]', "self._coord: list[np.ndarray] = [c.ravel() for c in coord_table]", "R3"),
+    _m("meshgrid-default-indexing", 'coord_table = np.meshgrid(*self._pt_on_axes, indexing="ij")', "coord_table = np.meshgrid(*self._pt_on_axes)", "R3"),
+    _m("strides-shifted-by-one-axis", "np.cumprod(tmp)[: self._param_dim]", "np.cumprod(tmp)[1 : self._param_dim + 1]", "R3"),
+    _m("strides-without-leading-one", "        tmp = np.hstack((1, self._npt))\n", "        tmp = np.hstack((self._npt, 1))\n", "R3"),
+    _m("fill-column-off-by-one", "            self._table_values[:, i] = function(*c)\n", "            self._table_values[:, i - 1] = function(*c)\n", "R3"),
+    # R4 index/coordinate pair and adaptive wiring
+    _m("adaptive-search-forgets-origin", "            floored_ind = ((x_i - base_i) // h_i).astype(int)\n", "            floored_ind = (x_i // h_i).astype(int)\n", "R4"),
+    _m("adaptive-node-coordinates-forget-origin", "        coord = self._base_point + self._h * unique_ind\n", "        coord = self._h * unique_ind\n", "R4"),
+    _m("dense-search-forgets-origin", "            ind.append(((x_i - low_i) // h_i).astype(int))\n", "            ind.append((x_i // h_i).astype(int))\n", "R4"),
+    _m("gradient-override-does-not-fill", "        if self._function is not None:\n            self._fill_values(x)\n\n        # Use standard method for differentiation.",
+       "        # Use standard method for differentiation.", "R4"),
+    _m("assign-values-ignores-permutation", "        self._pt = np.hstack((self._pt, coord[:, column_permutation]))\n", "        self._pt = np.hstack((self._pt, coord))\n", "R4", control=True),
+    _m("function-evaluated-at-indices", "[self._function(*coord[:, i]) for i in indices_to_compute]", "[self._function(*unique_ind[:, i]) for i in indices_to_compute]", "R4"),
+    _m("filter-only-coordinates", "            unique_ind = unique_ind[:, np.logical_not(exists)]\n", "", "R4"),
+    _m("keys-for-all-values-for-new", "self._table.add([unique_ind[:, i] for i in indices_to_compute], new_values)",
+       "self._table.add([unique_ind[:, i] for i in range(unique_ind.shape[1])], new_values)", "R4"),
+    _m("requested-vertices-only-base", "            return np.asarray(base_ind + incr)\n", "            return np.asarray(base_ind)\n", "R4"),
+    _m("gradient-delegates-to-interpolate", "        return super().gradient(x, axis)\n", "        return super().interpolate(x)\n", "R4"),
+    # R5
+    _m("default-base-point-self-dim", "            base_point = np.zeros(dim)\n", "            base_point = np.zeros(self.dim)\n", "R5"),
+]
